@@ -642,6 +642,7 @@ pub fn run_sharded_budget(args: &[String], ncases: usize, nshards: usize, per_ca
       s.spawn(move || {
         let mut start = lo;
         let mut faults = 0usize;
+        let mut startup_faults = 0usize;
         while start < hi {
           if faults >= max_faults {
             let mut o = outcomes.lock().unwrap();
@@ -669,6 +670,7 @@ pub fn run_sharded_budget(args: &[String], ncases: usize, nshards: usize, per_ca
           });
           let mut current: Option<usize> = None;
           let mut next_start = hi;
+          let mut ended = false;
           loop {
             match rx.recv_timeout(Duration::from_secs_f64(per_case_timeout_s)) {
               Ok(l) => {
@@ -682,6 +684,7 @@ pub fn run_sharded_budget(args: &[String], ncases: usize, nshards: usize, per_ca
                   }
                   current = r.trim().parse().ok();
                 } else if l.trim() == "E" {
+                  ended = true;
                   if let Some(c) = current.take() {
                     let mut o = outcomes.lock().unwrap();
                     if o[c].is_none() {
@@ -692,10 +695,9 @@ pub fn run_sharded_budget(args: &[String], ncases: usize, nshards: usize, per_ca
                   let mut it = r.splitn(2, ' ');
                   let idx: usize = it.next().unwrap().parse().unwrap();
                   let v: Value = serde_json::from_str(it.next().unwrap_or("null")).unwrap_or(Value::Null);
+                  // `current` stays set until the next S/E line: a crash during the
+                  // tear-down of this case is still a crash of this case
                   outcomes.lock().unwrap()[idx] = Some(CaseOutcome::Done(v));
-                  if current == Some(idx) {
-                    current = None;
-                  }
                 }
               }
               Err(mpsc::RecvTimeoutError::Timeout) => {
@@ -707,8 +709,9 @@ pub fn run_sharded_budget(args: &[String], ncases: usize, nshards: usize, per_ca
                   outcomes.lock().unwrap()[c] = Some(CaseOutcome::Hang);
                   next_start = c + 1;
                 } else {
-                  // hung outside a case (startup): machinery problem; skip one to make progress
-                  next_start = hi;
+                  // hung outside a case (start-up under load): try again from the same place a few times
+                  startup_faults += 1;
+                  next_start = if startup_faults > 5 { hi } else { start };
                 }
                 break;
               }
@@ -718,8 +721,16 @@ pub fn run_sharded_budget(args: &[String], ncases: usize, nshards: usize, per_ca
                   faults += 1;
                   outcomes.lock().unwrap()[c] = Some(CaseOutcome::Crash(st));
                   next_start = c + 1;
-                } else {
+                } else if ended {
                   next_start = hi;
+                } else {
+                  // died before its first case or between cases without finishing the range
+                  startup_faults += 1;
+                  let done_upto = {
+                    let o = outcomes.lock().unwrap();
+                    (start..hi).find(|i| o[*i].is_none()).unwrap_or(hi)
+                  };
+                  next_start = if startup_faults > 5 { hi } else { done_upto };
                 }
                 break;
               }
